@@ -254,6 +254,62 @@ pub fn family(tier: Tier) -> Vec<Spec> {
             }
         }
     }
+    // overlapping triples / quadruples under EVERY order of explicit priorities (a pattern that
+    // outranks its predecessor but not an earlier one, etc.) and under default priorities
+    let pool: Vec<&str> = match tier {
+        Tier::Quick => vec!["a", "a+", "[ab]+", "a|b", "ab?", "[ab]", "aa?", "a[ab]*", ".", "[^b]+", "aa"],
+        Tier::Thorough => vec!["a", "a+", "[ab]+", "a|b", "ab?", "[ab]", "aa?", "a[ab]*", ".", "[^b]+", "aa", "(?i:a)", "a{1,2}", "[a-c]", "a$|a", "é|a", "b*a"],
+    };
+    let perms3: [[usize; 3]; 6] = [[0, 1, 2], [0, 2, 1], [1, 0, 2], [1, 2, 0], [2, 0, 1], [2, 1, 0]];
+    for i in 0..pool.len() {
+        for j in i + 1..pool.len() {
+            for k in j + 1..pool.len() {
+                let base = [pool[i], pool[j], pool[k]];
+                specs.push(Spec::new(true, base.iter().map(|p| Pat::regex(p)).collect()));
+                for pr in perms3 {
+                    let pats: Vec<Pat> = base.iter().enumerate().map(|(x, p)| Pat::regex(p).prio(3 + 2 * pr[x])).collect();
+                    specs.push(Spec::new(true, pats.clone()));
+                    if pr[0] == 1 {
+                        specs.push(Spec::new(false, pats));
+                    }
+                }
+                // literal token first / last with explicit priorities around it
+                if base[0] == "a" || base[0] == "aa" {
+                    for pr in perms3 {
+                        let mut pats: Vec<Pat> = base.iter().enumerate().map(|(x, p)| Pat::regex(p).prio(3 + 2 * pr[x])).collect();
+                        pats[0] = Pat::token(base[0]).prio(3 + 2 * pr[0]);
+                        specs.push(Spec::new(true, pats));
+                    }
+                }
+            }
+        }
+    }
+    let qpool = &pool[..if tier == Tier::Thorough { 10 } else { 6 }];
+    let mut perms4: Vec<[usize; 4]> = vec![];
+    for a in 0..4 {
+        for b in 0..4 {
+            for c in 0..4 {
+                for d in 0..4 {
+                    if a != b && a != c && a != d && b != c && b != d && c != d {
+                        perms4.push([a, b, c, d]);
+                    }
+                }
+            }
+        }
+    }
+    for i in 0..qpool.len() {
+        for j in i + 1..qpool.len() {
+            for k in j + 1..qpool.len() {
+                for l in k + 1..qpool.len() {
+                    let base = [qpool[i], qpool[j], qpool[k], qpool[l]];
+                    for pr in &perms4 {
+                        let pats: Vec<Pat> = base.iter().enumerate().map(|(x, p)| Pat::regex(p).prio(3 + 2 * pr[x])).collect();
+                        specs.push(Spec::new(true, pats));
+                    }
+                }
+            }
+        }
+    }
     // byte-mode family
     let bp = byte_patterns();
     for (i, a) in bp.iter().enumerate() {
